@@ -204,6 +204,36 @@ def build(tier="quick", seed=0):
                                     replay=lambda w, expr=expr, cls_name=cls_name, order=order: {"call": "c10_history", "args": {"expr": expr, "cls": cls_name, "order": order, "x": w.get("x") if isinstance(w.get("x"), int) else 0, "s": w.get("s") if isinstance(w.get("s"), str) else ""}},
                                     functions=FU, mode="paths are explored in lock step: the same decisions drive both evaluations, so equal outcomes on every path is equality of the match result"))
 
+    # the result for a record is given by the record alone: concrete two-record histories judged against the stated value (not against a second selector,
+    # which a module-level cache would poison in the same way)
+    REF_CASES = [
+        # (expression, fields of first record, values, fields of second record, values, result for the second record)
+        ("(r.n, r.s) in [(r.other, 'a'), (1, 'b')]", [("varint", "n"), ("string", "s"), ("varint", "other")], {"n": 5, "s": "a", "other": 5}, [("varint", "n"), ("string", "s"), ("varint", "other")], {"n": 5, "s": "a", "other": 6}, False),
+        ("(r.n, r.s) in [(r.other, 'a'), (1, 'b')]", [("varint", "n"), ("string", "s"), ("varint", "other")], {"n": 5, "s": "a", "other": 7}, [("varint", "n"), ("string", "s"), ("varint", "other")], {"n": 6, "s": "a", "other": 6}, True),
+        ("r.n in [0, (r.other,), r.other]", [("varint", "n"), ("varint", "other")], {"n": 1, "other": 1}, [("varint", "n"), ("varint", "other")], {"n": 1, "other": 2}, False),
+        ("str(lower(r.v)) == '1'", [("boolean", "v")], {"v": True}, [("varint", "v")], {"v": 1}, True),
+        ("str(upper(r.v)) == 'True'", [("varint", "v")], {"v": 1}, [("boolean", "v")], {"v": True}, True),
+        ("str(lower(r.v)) == '1.0'", [("varint", "v")], {"v": 1}, [("float", "v")], {"v": 1.0}, True),
+        ("lower(r.v) == 'ab'", [("string", "v")], {"v": "AB"}, [("string", "v")], {"v": "Ab"}, True),
+        ("upper(r.v) in ['X', r.w]", [("string", "v"), ("string", "w")], {"v": "q", "w": "Q"}, [("string", "v"), ("string", "w")], {"v": "q", "w": "Z"}, False),
+    ]
+    for cls_name in ("Selector", "CompiledSelector"):
+        for k_, (expr, f1, v1, f2, v2, want) in enumerate(REF_CASES):
+            name = f"C10.history.value[{cls_name}, {expr}, record {v2} after {v1}]"
+
+            def th(expr=expr, f1=f1, v1=v1, f2=f2, v2=v2, cls_name=cls_name):
+                R1 = it.call(RD, ["c10/h1", list(f1)], {})
+                R2 = it.call(RD, ["c10/h2" if f1 != f2 else "c10/h1", list(f2)], {})
+                s1 = it.call(sel.g[cls_name], [expr], {})
+                try:
+                    it.call(it.getattr_(s1, "match"), [it.call(R1, [], dict(v1))], {})
+                except PyRaise:
+                    pass
+                return bool(it.truth(it.call(it.getattr_(s1, "match"), [it.call(R2, [], dict(v2))], {})))
+
+            pack.add(Obligation(name, lambda tier, name=name, th=th, want=want, expr=expr: prove_paths(name, th, lambda p, want=want: (p.value is want, f"{expr!r}: the second record matches {p.value}, its own values give {want}"), lambda m_, p: {}),
+                                replay=lambda w, k_=k_, cls_name=cls_name: {"call": "c10_history_value", "args": {"case": k_, "cls": cls_name}}, functions=FU, mode="concrete two-record histories with the stated result"))
+
     def global_state():
         """module-level mutable containers of selector.py / base.py (a match must not leave anything behind in them)"""
         out = {}
